@@ -30,13 +30,14 @@ MANIFEST = {
     "note": "Two engine states, two agents, two texts, <= 2 episodes per index, histories <= 5-6 steps exhaustively (simulated beyond). The world is chosen so that each dependency component changes the real result; a predicted stale hit that does not change the real result is counted as unconfirmed, not as an alarm. Diagnostics (cache_* counters, max_delta) are excluded as the property says.",
 }
 
-ALL_KEYS = ["t1.content", "t1.state", "t1.perf", "t2.view", "t2.k", "t2.day", "t2.graph", "t2.index",
+ALL_KEYS = ["t1.content", "t1.state", "t1.perf", "t1.caps", "t2.view", "t2.k", "t2.day", "t2.graph", "t2.index",
             "tl.view", "tl.k", "tl.day", "tl.graph", "tl.mem"]
 # model of the current code: which dependency components its cache keys cover (see DESIGN.md C05)
 KEY_HAS_CURRENT: List[str] = list(ALL_KEYS)   # after the three key fixes (known_findings.json: C05-*)
 
 CAUSE_TO_KEY = {  # (cache, differing dependency) -> key component whose absence explains it
-    ("t1", "gw"): "t1.content", ("t1", "gn"): "t1.content", ("t1", "cap"): "t1.perf",
+    ("t1", "gw"): "t1.content", ("t1", "gn"): "t1.content", ("t1", "cap"): "t1.perf", ("t1", "relax"): "t1.caps", ("t1", "ord"): "t1.state",
+    ("t2", "tod"): "t2.day", ("tl", "tod"): "tl.day",
     ("t2", "view"): "t2.view", ("t2", "k"): "t2.k", ("t2", "day"): "t2.day", ("t2", "graph"): "t2.graph", ("t2", "mem"): "t2.index",
     ("tl", "view"): "tl.view", ("tl", "k"): "tl.k", ("tl", "day"): "tl.day", ("tl", "graph"): "tl.graph", ("tl", "mem"): "tl.mem",
     ("tl", "r1"): "tl.graph", ("t2", "r1"): "t1.content",
@@ -46,8 +47,9 @@ DIAG_T1 = {"cache_hits", "cache_misses", "cache_used", "cache_enabled", "max_del
 DIAG_T2 = {"cache_hits", "cache_misses", "cache_used", "cache_enabled", "backend", "backend_fallback"}
 
 EPS = {"eA": ("A", "apple banana story with bread"), "eB": ("B", "apple pie and banana bread")}
-DAY0 = "2025-09-01T00:00:00Z"
-DAY1 = "2025-10-20T00:00:00Z"   # 49 days later: leaves the 30-day exact window, changes recency
+DAY0 = "2025-09-01T00:30:00Z"
+DAY1 = "2025-10-20T00:30:00Z"   # 49 days later: leaves the 30-day exact window, changes recency
+LATE = "T23:30:00Z"             # time of day 1: same calendar day, 23 h later (recency term differs)
 
 
 def _graphs():
@@ -84,7 +86,11 @@ class World:
         self.states = {}
         self.snapdir = os.path.join(workdir, "snaps_" + ("on" if cached else "off"))
         for s in (1, 2):
-            self.states[s] = E.mk_state(_graphs(), [])
+            gs = _graphs()
+            if s == 2:
+                # same content, edges inserted in the opposite order: the store iterates in insertion order
+                gs = {gid: {"nodes": g["nodes"], "edges": list(reversed(g["edges"]))} for gid, g in gs.items()}
+            self.states[s] = E.mk_state(gs, [])
             for e in sorted(init_eps):
                 self.env({"ev": "add_episode", "s": s, "e": e})
         self.kill = False
@@ -92,6 +98,8 @@ class World:
         self.scope = "any"
         self.day = 0
         self.perf = False
+        self.tod = 0
+        self.relax = 0
         self.turn = 0
 
     def cfg(self):
@@ -102,7 +110,11 @@ class World:
                        "cache": {"enabled": self.cached}, "cache_bust_mode": "on-apply"},
                 # the caps are always configured; the master switch decides whether they are effective
                 "perf": {"enabled": self.perf, "t1": {"caps": {"frontier": 2}}}}
-        return self.E.validated_cfg(over)
+        c = self.E.validated_cfg(over)
+        if self.relax:
+            # t1.relax_cap is read by the stage but is not a key of the validator's schema: set after validation
+            c["t1"]["relax_cap"] = self.relax - 1
+        return c
 
     def env(self, ev):
         from clematis.engine.types import Node, Edge
@@ -132,14 +144,21 @@ class World:
             self.day = 1
         elif name == "toggle_perf":
             self.perf = not self.perf
+        elif name == "next_hour":
+            self.tod = 1 - self.tod
+        elif name == "set_relax":
+            self.relax = (self.relax + 1) % 3
 
     def run_turn(self, ev):
         import clematis.engine.orchestrator as orch
         import clematis.engine.health as health
         E = self.E
         self.turn += 1
-        ctx = E.mk_ctx(self.cfg(), ev["a"], self.turn, now=(DAY1 if self.day else DAY0),
-                       now_ms=E.NOW_MS + (49 * 86400000 if self.day else 0))
+        now = DAY1 if self.day else DAY0
+        if self.tod:
+            now = now[:10] + LATE
+        ctx = E.mk_ctx(self.cfg(), ev["a"], self.turn, now=now,
+                       now_ms=E.NOW_MS + (49 * 86400000 if self.day else 0) + (23 * 3600000 if self.tod else 0))
         seen = {}
         real = health.check_and_log
 
@@ -258,10 +277,15 @@ def check(run) -> None:
                 "simulated behaviours) replayed on the real engine with caches on vs off; distinct = distinct history")
     base = {"S": [1, 2], "Agents": ["A", "B"], "Texts": ["apple", "banana"], "MaxAdds": 2, "MaxVer": 2 if q else 3,
             "MaxLen": 5 if q else 6, "Episodes": ["eA", "eB"], "InitEps": []}
+    # the environment / configuration alphabet is split into two runs to bound the state space
+    ACTS_A = ["edit_weight", "add_node", "add_episode", "clear_index", "toggle_kill", "set_k", "set_scope", "next_day", "toggle_perf"]
+    ACTS_B = ["edit_weight", "toggle_kill", "next_hour", "set_relax", "toggle_perf"]
+    ACTS_ALL = sorted(set(ACTS_A) | set(ACTS_B))
     # 1) the full key set satisfies HitEqualsFresh (design)
-    cfg = make_cfg(dict(base, KeyHas=ALL_KEYS), ["HitEqualsFresh"], [], emit=False, view="View_")
-    res = run.tlc("CacheKeys", cfg, name="CacheKeys_full_keys", workers=16, timeout_s=1500)
-    run.model_must_hold(res)
+    for nm, acts in (("A", ACTS_A), ("B", ACTS_B)):
+        cfg = make_cfg(dict(base, KeyHas=ALL_KEYS, Acts=acts), ["HitEqualsFresh"], [], emit=False, view="View_")
+        res = run.tlc("CacheKeys", cfg, name=f"CacheKeys_full_keys_{nm}", workers=16, timeout_s=1500)
+        run.model_must_hold(res)
     run.ok("Model.full_key_set_transparent")
     # 2) adversarial histories: the weakest key model (only text / add counter / version in the keys)
     #    yields a witness history for every way a dependency can change under a cached entry; they are
@@ -269,17 +293,17 @@ def check(run) -> None:
     #    cover (KEY_HAS_CURRENT) — this is what reports a key component that is dropped again
     missing = [kx for kx in ALL_KEYS if kx not in KEY_HAS_CURRENT]
     by_sig: Dict[str, List[dict]] = {}
-    for init_eps in ([], ["eA", "eB"]):
-        cfg = make_cfg(dict(base, KeyHas=[], MaxLen=5 if not init_eps else 4, InitEps=init_eps, MaxAdds=2), [], [], emit=False, view="View_", constraint="EmitStale")
-        res = run.tlc("CacheKeys", cfg, name=f"CacheKeys_weakest_keys_init{len(init_eps)}", workers=8, timeout_s=1500)
+    for nm, acts, init_eps in (("A", ACTS_A, []), ("A", ACTS_A, ["eA", "eB"]), ("B", ACTS_B, ["eA", "eB"])):
+        cfg = make_cfg(dict(base, KeyHas=[], MaxLen=5 if not init_eps else 4, InitEps=init_eps, MaxAdds=2, Acts=acts), [], [], emit=False, view="View_", constraint="EmitStale")
+        res = run.tlc("CacheKeys", cfg, name=f"CacheKeys_weakest_keys_{nm}_init{len(init_eps)}", workers=8, timeout_s=1500)
         run.model_must_hold(res)
         for w in res.emitted:
             last = w["h"][-1]
             w["init_eps"] = init_eps
-            sig = json.dumps([len(init_eps)] + sorted((c, cause) for c in ("t1", "t2", "tl") for cause in last["obs"][c]["cause"]))
+            sig = json.dumps([nm, len(init_eps)] + sorted((c, cause) for c in ("t1", "t2", "tl") for cause in last["obs"][c]["cause"]))
             by_sig.setdefault(sig, []).append(w)
     witnesses = []
-    per = 40 if q else 300
+    per = 25 if q else 300
     for sig, ws in sorted(by_sig.items()):
         ws.sort(key=lambda w: (len(w["h"]), json.dumps(w["h"], sort_keys=True)))
         if len(ws) <= per:
@@ -295,7 +319,7 @@ def check(run) -> None:
     run.extra["key_components_missing_in_model"] = missing
     # 3) ordinary behaviours (simulation)
     n = 150 if q else 3000
-    cfg = make_cfg(dict(base, KeyHas=KEY_HAS_CURRENT, MaxLen=6 if q else 8, MaxVer=4), [], [], emit=False, view=None, constraint="EmitAtEnd")
+    cfg = make_cfg(dict(base, KeyHas=KEY_HAS_CURRENT, MaxLen=6 if q else 8, MaxVer=4, Acts=ACTS_ALL), [], [], emit=False, view=None, constraint="EmitAtEnd")
     sim = run.tlc("CacheKeys", cfg, name="CacheKeys_simulate", workers=1, timeout_s=600, simulate=f"num={n}", depth=(7 if q else 9))
     behaviours = sim.emitted[:n]
     cases = [{"h": w["h"], "workdir": run.workdir, "origin": "witness", "init_eps": w["init_eps"]} for w in witnesses] + \
